@@ -249,7 +249,7 @@ def real_load(content, safe_to_import=None):
         except S.ForbiddenModule as e:
             m = re.match(r"Module '(.*)' is forbidden", str(e), re.S)
             return 'forbidden ' + enc_str(m.group(1) if m else '?'), None, tr
-        except ModuleNotFoundError as e:
+        except (ModuleNotFoundError, getattr(S, 'ModuleNotFoundError', ModuleNotFoundError)) as e:
             m = re.match(r"DeepDiff Delta did not find (.*) in your modules", str(e), re.S)
             return 'modnotfound ' + enc_str(m.group(1) if m else '?'), None, tr
         except AttributeError as e:
